@@ -105,11 +105,36 @@ Lemma nonempty_match {A} (y : str) (a : A) (f : str -> A) : y <> [] ->
   match y with [] => a | r' => f r' end = f y.
 Proof. destruct y; [congruence|reflexivity]. Qed.
 
+(* without a statement label *)
+Lemma end_re_kw_line m y : end_re (recase m (s "end") ++ y) = end_core (recase m (s "end") ++ y).
+Proof.
+  unfold end_re. pose proof (kw_words m (s "end") eq_refl) as W. pose proof (kw_nonempty m (s "end") ltac:(discriminate)) as N.
+  pose proof (alpha_recase m (s "end") eq_refl) as A.
+  destruct (recase m (s "end")) as [|c r]; [congruence|]. cbn in A. apply andb_true_iff in A as [Ac _].
+  cbn [app take_while].
+  assert (D : is_digit c = false).
+  { unfold is_alpha, is_upper, is_lower, is_digit, code in *.
+    destruct (nat_of_ascii c <=? 57) eqn:D; [|now rewrite andb_false_r].
+    apply Nat.leb_le in D. apply orb_true_iff in Ac as [Ac | Ac]; apply andb_true_iff in Ac as [A1 A2];
+      apply Nat.leb_le in A1; lia. }
+  now rewrite D.
+Qed.
+Lemma end_core_kw m b y : y <> [] -> skip_ws y = y ->
+  end_core (recase m (s "end") ++ blanks b ++ y) = end_alts end_alts_table y.
+Proof.
+  intros N S. unfold end_core. rewrite (match_ci_kw m (s "end") _ eq_refl), skip_ws_bl, S.
+  destruct y; [congruence|reflexivity].
+Qed.
 Lemma end_re_kw m b y : y <> [] -> skip_ws y = y ->
   end_re (recase m (s "end") ++ blanks b ++ y) = end_alts end_alts_table y.
+Proof. intros N S. rewrite end_re_kw_line. now apply end_core_kw. Qed.
+(* with a statement label *)
+Lemma end_re_label digits b y : digits <> [] -> forallb is_digit digits = true ->
+  end_re (digits ++ blanks (S b) ++ y) = end_core (skip_ws y).
 Proof.
-  intros N S. unfold end_re. rewrite (match_ci_kw m (s "end") _ eq_refl), skip_ws_bl, S.
-  destruct y; [congruence|reflexivity].
+  intros N D. unfold end_re. change (blanks (S b) ++ y) with (c_sp :: (blanks b ++ y)).
+  rewrite (take_while_all is_digit digits c_sp (blanks b ++ y) D eq_refl).
+  destruct digits; [congruence|]. change (c_sp :: (blanks b ++ y)) with (blanks (S b) ++ y). now rewrite ws1_gap.
 Qed.
 
 Definition opt_name_ok (name : option (nat * str)) : Prop :=
@@ -146,11 +171,83 @@ Proof.
     destruct e; try reflexivity. now rewrite (A eq_refl).
 Qed.
 
-Theorem d_end c m : classify c (render (XEnd None m)) = Fired (s "END_RE") (SEnd EndPlain).
+(* a line that begins with a statement label: the five branches before END_RE do not fire *)
+Lemma digit_cases d : is_digit d = true ->
+  In d ["0"; "1"; "2"; "3"; "4"; "5"; "6"; "7"; "8"; "9"]%char.
+Proof. destruct d as [[] [] [] [] [] [] [] []]; intros H; try discriminate H; cbn; tauto. Qed.
+
+Lemma label_line_misses c d y : is_digit d = true -> format_re (d :: y) = false ->
+  Forall (misses c (d :: y)) (firstn 5 cascade).
 Proof.
-  unfold render. cbn [pieces_of label_pieces app].
-  apply classify_end; [piece_oks|now apply kw_line_ends| |discriminate].
-  rewrite denote1. cbn [piece_text]. unfold end_re. rewrite <- (app_nil_r (recase m (s "end"))).
+  intros D F. apply digit_cases in D. cbn [firstn cascade].
+  assert (A : re_match ATTRIB_RE (d :: y) = No).
+  { apply (anchored_miss ATTRIB_RE _ eq_refl). cbn [lower map].
+    cbn [In] in D. repeat (destruct D as [<- | D]; [reflexivity|]). destruct D. }
+  repeat constructor; try reflexivity; cbn [br_cond eval_cond re_match]; try (now rewrite F); try (now rewrite A);
+    cbn [lower map]; cbn [In] in D; repeat (destruct D as [<- | D]; [reflexivity|]); destruct D.
+Qed.
+
+Lemma classify_end_label c digits b m rest e :
+  digits <> [] -> forallb is_digit digits = true ->
+  Forall piece_ok (PKw m (s "end") :: rest) -> ends_nonspace (denote (PKw m (s "end") :: rest)) ->
+  end_re (denote (PKw m (s "end") :: rest)) = Some e ->
+  (e = EndAssociate -> has_calls (cx_kind c) = true) ->
+  classify c (denote (PTx digits :: PGap b :: PKw m (s "end") :: rest)) = Fired (s "END_RE") (SEnd e).
+Proof.
+  intros N D O E R A.
+  assert (Od : Forall piece_ok (PTx digits :: PGap b :: PKw m (s "end") :: rest)).
+  { constructor; [|constructor; [exact I|exact O]]. cbn [piece_ok]. split.
+    - apply forallb_forall. intros x Hx. rewrite forallb_forall in D. specialize (D x Hx).
+      apply digit_cases in D. cbn [In] in D. repeat (destruct D as [<- | D]; [reflexivity|]). destruct D.
+    - apply Bool.not_true_is_false. intros H. apply existsb_exists in H as (x & Hx & Q).
+      rewrite forallb_forall in D. specialize (D x Hx).
+      apply digit_cases in D. cbn [In] in D. repeat (destruct D as [<- | D]; [discriminate Q|]). destruct D. }
+  set (tl := denote (PKw m (s "end") :: rest)) in *.
+  assert (Ex : denote (PTx digits :: PGap b :: PKw m (s "end") :: rest) = digits ++ blanks (S b) ++ tl) by reflexivity.
+  assert (Etl : tl = recase m (s "end") ++ denote rest) by reflexivity.
+  rewrite classify_rendered; [|exact Od| |].
+  2:{ rewrite Ex. destruct digits as [|d ds]; [congruence|]. exists d, (ds ++ blanks (S b) ++ tl). split; [reflexivity|].
+      cbn [forallb] in D. apply andb_true_iff in D as [D _]. apply digit_cases in D. cbn [In] in D.
+      repeat (destruct D as [<- | D]; [reflexivity|]). destruct D. }
+  2:{ rewrite Ex. apply ends_nonspace_app. apply ends_nonspace_app. exact E. }
+  assert (Re : end_re (digits ++ blanks (S b) ++ tl) = Some e).
+  { rewrite (end_re_label digits b tl N D), Etl, (skip_ws_kw m (s "end") _ ltac:(discriminate) eq_refl).
+    rewrite <- end_re_kw_line, <- Etl. exact R. }
+  assert (Fm : format_re (digits ++ blanks (S b) ++ tl) = false).
+  { unfold format_re. change (blanks (S b) ++ tl) with (c_sp :: (blanks b ++ tl)).
+    rewrite (take_while_all is_digit digits c_sp (blanks b ++ tl) D eq_refl).
+    destruct digits as [|d ds]; [congruence|]. change (c_sp :: (blanks b ++ tl)) with (blanks (S b) ++ tl).
+    rewrite ws1_gap, Etl, (skip_ws_kw m (s "end") _ ltac:(discriminate) eq_refl).
+    now rewrite (match_ci_conflict' (s "format") m (s "end") _ eq_refl eq_refl). }
+  rewrite Ex. change cascade with (firstn 5 cascade ++ br 5 :: skipn 6 cascade).
+  rewrite run_cascade_at; [| |reflexivity|].
+  - change (br_cond (br 5)) with (CMatch END_RE). cbn [cond_key action key_name]. rewrite Re.
+    destruct e; try reflexivity. now rewrite (A eq_refl).
+  - destruct digits as [|d ds]; [congruence|]. cbn [forallb] in D. apply andb_true_iff in D as [D _].
+    now apply label_line_misses.
+  - change (br_cond (br 5)) with (CMatch END_RE). cbn [eval_cond re_match]. now rewrite Re.
+Qed.
+
+Lemma label_ok_inv digits b : label_ok (Some (digits, b)) = true -> digits <> [] /\ forallb is_digit digits = true.
+Proof. cbn [label_ok]. intros H. apply andb_true_iff in H as [N D]. split; [now destruct digits|exact D]. Qed.
+
+Lemma classify_end_lab c lab m rest e :
+  label_ok lab = true ->
+  Forall piece_ok (PKw m (s "end") :: rest) -> ends_nonspace (denote (PKw m (s "end") :: rest)) ->
+  end_re (denote (PKw m (s "end") :: rest)) = Some e ->
+  (e = EndAssociate -> has_calls (cx_kind c) = true) ->
+  classify c (denote (label_pieces lab ++ PKw m (s "end") :: rest)) = Fired (s "END_RE") (SEnd e).
+Proof.
+  intros L O E R A. destruct lab as [[digits b]|]; cbn [label_pieces app].
+  - destruct (label_ok_inv digits b L) as [N D]. now apply classify_end_label.
+  - now apply classify_end.
+Qed.
+
+Theorem d_end c lab m : label_ok lab = true -> classify c (render (XEnd lab m)) = Fired (s "END_RE") (SEnd EndPlain).
+Proof.
+  intros L. unfold render. cbn [pieces_of].
+  apply classify_end_lab; [exact L|piece_oks|now apply kw_line_ends| |discriminate].
+  rewrite denote1. cbn [piece_text]. rewrite <- (app_nil_r (recase m (s "end"))), end_re_kw_line. unfold end_core.
   now rewrite (match_ci_kw m (s "end") [] eq_refl).
 Qed.
 
@@ -191,25 +288,27 @@ Proof.
   - now apply (end_alts_hit 8 m _ tail EndPlain).
 Qed.
 
-Lemma end_alts_blockdata m m' tail : end_tail tail = true ->
-  end_alts end_alts_table (recase m (s "block") ++ blanks 1 ++ recase m' (s "data") ++ tail) = Some EndPlain.
+Lemma end_alts_blockdata m bd m' tail : end_tail tail = true ->
+  end_alts end_alts_table (recase m (s "block") ++ blanks bd ++ recase m' (s "data") ++ tail) = Some EndPlain.
 Proof.
   intros T.
   change end_alts_table with (firstn 9 end_alts_table ++ skipn 9 end_alts_table).
   rewrite (end_alts_skip (firstn 9 end_alts_table) (skipn 9 end_alts_table) m (s "block") _ eq_refl eq_refl).
   cbn [end_alts_table skipn]. cbn [end_alts]. unfold end_alt at 1.
   rewrite (match_ci_kw m (s "block") _ eq_refl).
-  change (blanks 1 ++ recase m' (s "data") ++ tail) with (c_sp :: (recase m' (s "data") ++ tail)).
-  cbn iota. replace (is_space c_sp) with true by reflexivity. rewrite (match_ci_kw m' (s "data") tail eq_refl). now rewrite T.
+  rewrite skip_ws_bl, (skip_ws_kw m' (s "data") _ ltac:(discriminate) eq_refl).
+  rewrite (match_ci_kw m' (s "data") tail eq_refl). now rewrite T.
 Qed.
 
-Theorem d_end_unit c m1 m2 b bd w name : opt_name_ok name -> (w = EBlockData -> bd = 1) ->
-  classify c (render (XEndUnit None m1 m2 b bd w name)) = Fired (s "END_RE") (SEnd EndPlain).
+Theorem d_end_unit c lab m1 m2 b bd w name : label_ok lab = true -> opt_name_ok name ->
+  classify c (render (XEndUnit lab m1 m2 b bd w name)) = Fired (s "END_RE") (SEnd EndPlain).
 Proof.
-  intros Hn Hbd. unfold render. cbn [pieces_of label_pieces app].
+  intros L Hn. unfold render. cbn [pieces_of].
+  change ([PKw m1 (s "end"); PBl b] ++ eword_pieces m2 bd w ++ opt_name name)
+    with (PKw m1 (s "end") :: PBl b :: eword_pieces m2 bd w ++ opt_name name).
   pose proof (opt_name_pieces name Hn) as On.
   assert (Ow : Forall piece_ok (eword_pieces m2 bd w)) by (destruct w; piece_oks).
-  apply classify_end; [constructor; [reflexivity|]; constructor; [exact I|]; now apply Forall_app| | |discriminate].
+  apply classify_end_lab; [exact L|constructor; [reflexivity|]; constructor; [exact I|]; now apply Forall_app| | |discriminate].
   - change (PKw m1 (s "end") :: PBl b :: eword_pieces m2 bd w ++ opt_name name)
       with ([PKw m1 (s "end"); PBl b] ++ eword_pieces m2 bd w ++ opt_name name).
     rewrite app_assoc.
@@ -235,7 +334,7 @@ Proof.
                    | exact (end_alts_unit m2 EType _ ltac:(discriminate) T)
                    | exact (end_alts_unit m2 EInterface _ ltac:(discriminate) T)
                    | exact (end_alts_unit m2 EEnum _ ltac:(discriminate) T) ] end).
-    rewrite (Hbd eq_refl). rewrite !denote_cons. cbn [piece_text denote fold_right]. rewrite app_nil_r.
+    rewrite !denote_cons. cbn [piece_text denote fold_right]. rewrite app_nil_r.
     rewrite <- !app_assoc.
     rewrite end_re_kw; [now apply end_alts_blockdata| |now apply skip_ws_kw].
     intros E. apply app_eq_nil in E as [E _]. revert E. now apply kw_nonempty.
@@ -271,25 +370,16 @@ Proof.
     rewrite (end_alts_skip (firstn 9 end_alts_table) (skipn 9 end_alts_table) m2 (s "block") _ eq_refl eq_refl).
     cbn [end_alts_table skipn]. cbn [end_alts]. unfold end_alt.
     rewrite (match_ci_kw m2 (s "block") _ eq_refl).
-    assert (E : match denote (opt_name name) with
-                | [] => None
-                | c0 :: r' => if is_space c0 then match_ci (s "data") r' else None
-                end = None \/
-                exists r2, match denote (opt_name name) with
-                           | [] => None
-                           | c0 :: r' => if is_space c0 then match_ci (s "data") r' else None
-                           end = Some r2 /\ end_tail r2 = false).
+    assert (E : match_ci (s "data") (skip_ws (denote (opt_name name))) = None \/
+                exists r2, match_ci (s "data") (skip_ws (denote (opt_name name))) = Some r2 /\ end_tail r2 = false).
     { destruct name as [[b' n]|]; [|left; reflexivity].
       cbn [opt_name denote fold_right piece_text]. rewrite app_nil_r.
-      change (blanks (S b') ++ n) with (c_sp :: (blanks b' ++ n)). cbn iota.
-      replace (is_space c_sp) with true by reflexivity.
-      destruct b' as [|b'].
-      - cbn [blanks repeat app]. destruct (match_ci (s "data") n) as [r2|] eqn:E; [|now left]. right.
-        exists r2. split; [reflexivity|].
-        pose proof (match_ci_words _ _ _ E (ident_words n (plain_ident_ok n Hn))) as W.
-        apply end_tail_words; [|exact W]. intros ->. apply match_ci_all in E.
-        rewrite E in Hd. discriminate Hd.
-      - left. change (blanks (S b') ++ n) with (c_sp :: (blanks b' ++ n)). reflexivity. }
+      rewrite (skip_ws_bl (S b')), (skip_ws_alnum n (ident_starts n (plain_ident_ok n Hn))).
+      destruct (match_ci (s "data") n) as [r2|] eqn:E; [|now left]. right.
+      exists r2. split; [reflexivity|].
+      pose proof (match_ci_words _ _ _ E (ident_words n (plain_ident_ok n Hn))) as W.
+      apply end_tail_words; [|exact W]. intros ->. apply match_ci_all in E.
+      rewrite E in Hd. discriminate Hd. }
     destruct E as [E|(r2 & E & E2)]; rewrite E; [|rewrite E2]; now rewrite T.
 Qed.
 
@@ -317,10 +407,10 @@ Proof.
   cbn [opt_name stop_ok piece_text]. apply ident_starts. now apply plain_ident_ok.
 Qed.
 
-Theorem d_program c m name : opt_name_ok name -> cx_kind c = KFile ->
+Theorem d_program c m name : opt_name_ok name ->
   classify c (render (XProgram m name)) = Fired (s "PROGRAM_RE") (SUnit KProgram (name_or_empty name)).
 Proof.
-  intros Hn Hk. unfold render. cbn [pieces_of].
+  intros Hn. unfold render. cbn [pieces_of].
   pose proof (opt_name_pieces name Hn) as On. destruct (opt_name_shape name Hn) as (F & St & LS).
   assert (R : unit_name_re (s "program") (denote (PKw m (s "program") :: opt_name name))
               = Some (match name with Some (_, n) => Some n | None => None end)).
@@ -333,7 +423,7 @@ Proof.
   - change (PKw m (s "program") :: opt_name name) with (([] ++ [PKw m (s "program")]) ++ opt_name name).
     apply ends_opt_name; [reflexivity|discriminate|exact Hn].
   - change (br_cond (br 12)) with (CMatch PROGRAM_RE). cbn [eval_cond re_match]. now rewrite R.
-  - change (br_cond (br 12)) with (CMatch PROGRAM_RE). cbn [cond_key action key_name]. rewrite Hk, R.
+  - change (br_cond (br 12)) with (CMatch PROGRAM_RE). cbn [cond_key action key_name]. rewrite R.
     now destruct name as [[b n]|].
 Qed.
 
@@ -575,7 +665,7 @@ Proof.
     rewrite app_nil_r. destruct (generic_ok_inv n Hn) as (Sn & _).
     change (blanks (S b) ++ n) with (c_sp :: (blanks b ++ n)). cbn iota.
     change (c_sp :: (blanks b ++ n)) with (blanks (S b) ++ n). rewrite ws1_gap, (skip_ws_alnum n Sn).
-    destruct Sn as (c0 & r0 & -> & _). reflexivity. }
+    now rewrite (starts_word_alnum n Sn). }
   apply (classify_kw c m (s "interface") rest ([BLOCK_RE; ASSOCIATE_RE] ++ [SUBROUTINE_RE; FUNCTION_RE]) 17);
     [exact O|discriminate| | |reflexivity|reflexivity|reflexivity| | ].
   - unfold rest. destruct name as [[b n]|].
@@ -907,31 +997,45 @@ Proof.
     now rewrite (ids_no_char c_slash b4 vars eq_refl eq_refl eq_refl (idents_ok_ident vars Hv)).
 Qed.
 
-Theorem d_final c m c1 c2 b1 b2 names : names <> [] -> idents_ok names -> cx_incontains c = true ->
-  classify c (render (XFinal m (Some (c1, c2)) b1 b2 names)) = Fired (s "FINAL_RE") (SLeaf LFinal names).
+Lemma comma_ids_head b x l : exists Y, comma_ids b (x :: l) = PId x :: Y.
+Proof. destruct l; [exists []; reflexivity|eexists; now rewrite comma_ids_cons by discriminate]. Qed.
+
+Theorem d_final c m dc b1 b2 names : names <> [] -> idents_ok names -> cx_incontains c = true ->
+  classify c (render (XFinal m dc b1 b2 names)) = Fired (s "FINAL_RE") (SLeaf LFinal names).
 Proof.
-  intros N Hv Hc. unfold render. cbn [pieces_of dc_or_gap dcolon app].
-  set (pre := [PBl c1; PCh c_colon; PCh c_colon; PBl c2]).
-  change (PBl c1 :: PCh c_colon :: PCh c_colon :: PBl c2 :: comma_ids b2 names) with (pre ++ comma_ids b2 names).
+  intros N Hv Hc. unfold render. cbn [pieces_of].
+  set (pre := dc_or_gap dc b1).
+  assert (Opre : Forall piece_ok pre) by (unfold pre; destruct dc as [[c1 c2]|]; piece_oks; split; reflexivity).
   assert (O : Forall piece_ok (PKw m (s "final") :: pre ++ comma_ids b2 names)).
-  { constructor; [reflexivity|]. apply Forall_app. split; [unfold pre; piece_oks; split; reflexivity|now apply idents_pieces]. }
+  { constructor; [reflexivity|]. apply Forall_app. split; [exact Opre|now apply idents_pieces]. }
   pose proof (idents_starts b2 names [] N Hv) as Sv. rewrite app_nil_r in Sv.
   assert (R : final_re (denote (PKw m (s "final") :: pre ++ comma_ids b2 names)) = Some (denote (comma_ids b2 names))).
-  { rewrite denote_cons, denote_app. unfold pre. cbn [denote fold_right piece_text]. norm_app. unfold final_re.
-    rewrite (match_ci_kw m (s "final") _ eq_refl), (skip_ws_bl_ch c1 c_colon _ eq_refl), prefix_dcolon. cbn [skipn].
-    now rewrite skip_ws_bl, (skip_ws_alnum _ Sv), (starts_word_alnum _ Sv). }
+  { rewrite denote_cons, denote_app. unfold pre. cbn [piece_text]. unfold final_re.
+    rewrite (match_ci_kw m (s "final") _ eq_refl).
+    destruct dc as [[c1 c2]|]; cbn [dc_or_gap dcolon app denote fold_right piece_text]; norm_app.
+    - rewrite (skip_ws_bl_ch c1 c_colon _ eq_refl), prefix_dcolon. cbn [skipn].
+      now rewrite skip_ws_bl, (skip_ws_alnum _ Sv), (starts_word_alnum _ Sv).
+    - rewrite (skip_ws_bl (S b1)), (skip_ws_alnum _ Sv), (prefix_dcolon_alnum _ Sv), ws1_gap, (skip_ws_alnum _ Sv).
+      now rewrite (starts_word_alnum _ Sv). }
+  assert (H0 : exists x Y, comma_ids b2 names = PId x :: Y /\ ident_ok x = true).
+  { destruct names as [|x l]; [congruence|]. destruct (comma_ids_head b2 x l) as (Y & E). exists x, Y. split; [exact E|].
+    pose proof (idents_ok_ident _ Hv) as H. now inversion H. }
+  destruct H0 as (x & Y & EY & Ix).
   apply (classify_kw c m (s "final") (pre ++ comma_ids b2 names) ([BLOCK_RE; ASSOCIATE_RE] ++ [SUBROUTINE_RE; FUNCTION_RE]) 21);
     [exact O|discriminate| | |reflexivity|reflexivity|reflexivity| | ].
   - change (PKw m (s "final") :: pre ++ comma_ids b2 names) with ((PKw m (s "final") :: pre) ++ comma_ids b2 names).
     apply comma_ids_ends; [exact N|now apply idents_ok_ident].
-  - apply known_std; try exact O; try reflexivity; try discriminate.
+  - apply known_std; try exact O; try discriminate; try reflexivity.
+    + rewrite EY. unfold pre. destruct dc as [[c1 c2]|]; reflexivity.
+    + rewrite EY. unfold pre. destruct dc as [[c1 c2]|]; cbn [dc_or_gap dcolon app stop_ok piece_text]; [reflexivity|now apply ident_starts].
+    + rewrite EY. unfold pre. destruct dc as [[c1 c2]|]; reflexivity.
     + change (PKw m (s "final") :: pre ++ comma_ids b2 names) with ((PKw m (s "final") :: pre) ++ comma_ids b2 names).
-      apply sep_closed_ok; [reflexivity|now apply sep_ok_comma_ids].
+      apply sep_closed_ok; [unfold pre; destruct dc as [[c1 c2]|]; reflexivity|now apply sep_ok_comma_ids].
     + change (PKw m (s "final") :: pre ++ comma_ids b2 names) with ((PKw m (s "final") :: pre) ++ comma_ids b2 names).
-      apply sep_closed_ok; [reflexivity|now apply sep_ok_comma_ids].
-    + constructor; [reflexivity|]. apply Forall_app. split; [unfold pre; repeat constructor|].
+      apply sep_closed_ok; [unfold pre; destruct dc as [[c1 c2]|]; reflexivity|now apply sep_ok_comma_ids].
+    + constructor; [reflexivity|]. apply Forall_app. split; [unfold pre; destruct dc as [[c1 c2]|]; repeat constructor|].
       apply idents_free; [now left|exact Hv].
-    + constructor; [reflexivity|]. apply Forall_app. split; [unfold pre; repeat constructor|].
+    + constructor; [reflexivity|]. apply Forall_app. split; [unfold pre; destruct dc as [[c1 c2]|]; repeat constructor|].
       apply idents_free; [now right|exact Hv].
   - change (br_cond (br 21)) with (CAnd (CMatch FINAL_RE) CInContains). cbn [eval_cond re_match]. now rewrite R, Hc.
   - change (br_cond (br 21)) with (CAnd (CMatch FINAL_RE) CInContains). cbn [cond_key action key_name]. rewrite R.
@@ -1953,21 +2057,25 @@ Proof.
     rewrite (lit_bl_same b1 c_colon _ eq_refl). unfold block_tail.
     rewrite <- (app_nil_r (recase m (s "block"))), skip_ws_bl, (skip_ws_kw m (s "block") [] ltac:(discriminate) eq_refl).
     now rewrite (match_ci_kw m (s "block") [] eq_refl). }
+  assert (Hdig : (match lower (denote ps) with c0 :: _ => is_digit c0 | [] => false end) = false).
+  { rewrite Elow. destruct (ident_ok_inv l I) as (c0 & r0 & -> & A0 & _). cbn [lower map app].
+    rewrite is_digit_lower_ch. unfold is_alpha, is_upper, is_lower, is_digit, code in *.
+    destruct (nat_of_ascii c0 <=? 57) eqn:D; [|now rewrite andb_false_r].
+    apply Nat.leb_le in D. apply orb_true_iff in A0 as [A0 | A0]; apply andb_true_iff in A0 as [A1 A2];
+      apply Nat.leb_le in A1; lia. }
   change cascade with (firstn 8 cascade ++ br 8 :: skipn 9 cascade).
   rewrite run_cascade_at; [reflexivity| |reflexivity|].
   - cbn [firstn cascade]. repeat constructor; try reflexivity; unfold misses; cbn [br_cond cond_key is_tail eval_cond sin].
     + now rewrite (Hlit (s "contains") eq_refl).
     + now rewrite !Hlit by reflexivity.
     + now rewrite (Hlit (s "sequence") eq_refl).
-    + apply format_miss. rewrite Elow. destruct (ident_ok_inv l I) as (c0 & r0 & -> & A0 & _). cbn [lower map app].
-      rewrite is_digit_lower_ch. unfold is_alpha, is_upper, is_lower, is_digit, code in *.
-      destruct (nat_of_ascii c0 <=? 57) eqn:D; [|now rewrite andb_false_r].
-      apply Nat.leb_le in D. apply orb_true_iff in A0 as [A0 | A0]; apply andb_true_iff in A0 as [A1 A2];
-        apply Nat.leb_le in A1; lia.
+    + apply format_miss. exact Hdig.
     + rewrite (anchored_miss ATTRIB_RE _ eq_refl); [reflexivity|]. apply NP. cbn. intros w Hw.
       repeat (destruct Hw as [<- | Hw]; [cbn; tauto|]). destruct Hw.
-    + apply (anchored_miss END_RE _ eq_refl). apply NP. cbn. intros w Hw.
-      repeat (destruct Hw as [<- | Hw]; [cbn; tauto|]). destruct Hw.
+    + apply end_miss; [exact Hdig|].
+      assert (E : none_prefix [s "end"] (lower (denote ps)) = true).
+      { apply NP. cbn. intros w Hw. repeat (destruct Hw as [<- | Hw]; [cbn; tauto|]). destruct Hw. }
+      unfold none_prefix in E. cbn [existsb] in E. rewrite orb_false_r in E. now apply negb_true_iff in E.
     + rewrite (anchored_miss MODPROC_RE _ eq_refl); [reflexivity|]. apply NP. cbn. intros w Hw.
       repeat (destruct Hw as [<- | Hw]; [cbn; tauto|]). destruct Hw.
     + apply (anchored_miss BLOCK_DATA_RE _ eq_refl). apply NP. cbn. intros w Hw.
@@ -2063,9 +2171,6 @@ Qed.
 
 Lemma pt_rest_spec T t : pt_rest (spec_parsed T t) = t.
 Proof. unfold spec_parsed. destruct (spec_ptype T) as [[[vt k] l] p]. reflexivity. Qed.
-
-Lemma comma_ids_head b x l : exists Y, comma_ids b (x :: l) = PId x :: Y.
-Proof. destruct l; [exists []; reflexivity|eexists; now rewrite comma_ids_cons by discriminate]. Qed.
 
 Lemma stripped_ids b names : names <> [] -> Forall (fun x => ident_ok x = true) names ->
   stripped (denote (comma_ids b names)) = true /\ stop_next (denote (comma_ids b names)) = true
@@ -2212,15 +2317,14 @@ Qed.
 Theorem dispatch_correct k inc l0 l : line_ok l = true -> place_ok k inc l0 l = true ->
   exists key, classify (mkctx k inc l0) (render l) = Fired key (stmt_of l).
 Proof.
-  intros LO PO. unfold line_ok in LO. apply andb_true_iff in LO as [LS KR]. apply Nat.eqb_eq in KR.
-  unfold line_shape_ok in LS. apply andb_true_iff in LS as [LI LX].
-  destruct l; cbn [idents_of forallb stmt_of place_ok known_region] in *;
+  intros LO PO. unfold line_ok, line_shape_ok in LO. apply andb_true_iff in LO as [LI LX].
+  destruct l; cbn [idents_of forallb stmt_of place_ok] in *;
     repeat match goal with H : (_ && _) = true |- _ => apply andb_true_iff in H as [? ?] end.
   - (* module *) eexists. now apply dispatch_module.
   - (* submodule *) eexists. apply d_submodule; try assumption.
     destruct parent; cbn [forallb] in *; [|exact I].
     repeat match goal with H : (_ && _) = true |- _ => apply andb_true_iff in H as [? ?] end. assumption.
-  - (* program *) eexists. apply d_program; [now apply opt_ident_ok|]. cbn [cx_kind]. now destruct k.
+  - (* program *) eexists. apply d_program. now apply opt_ident_ok.
   - (* block data *) eexists. apply d_block_data. now apply opt_ident_ok.
   - (* type *) eexists. destruct f as [b|b1 b2|b0 b1 b2 b3 attrs]; cbn [idents_of forallb] in *;
       repeat match goal with H : (_ && _) = true |- _ => apply andb_true_iff in H as [? ?] end;
@@ -2238,9 +2342,8 @@ Proof.
     destruct res as [[[[b4 m2] b5] r]|]; [|exact I]. cbn [forallb] in *.
     repeat match goal with H : (_ && _) = true |- _ => apply andb_true_iff in H as [? ?] end.
     split; [assumption|]. now apply negb_true_iff.
-  - (* end *) eexists. destruct lab; [discriminate KR|]. apply d_end.
-  - (* end unit *) eexists. destruct lab; [discriminate KR|]. apply d_end_unit; [now apply opt_ident_ok|].
-    intros ->. destruct (Nat.eqb bd 1) eqn:E; [now apply Nat.eqb_eq|discriminate KR].
+  - (* end *) eexists. now apply d_end.
+  - (* end unit *) eexists. apply d_end_unit; [assumption|now apply opt_ident_ok].
   - (* end block *) eexists. apply d_end_block; [now apply opt_ident_ok|].
     destruct name as [[bn n]|]; [now apply negb_true_iff|exact I].
   - (* end associate *) eexists. apply d_end_associate; [now apply opt_ident_ok|]. cbn [cx_kind]. now destruct k.
@@ -2254,8 +2357,7 @@ Proof.
     rewrite forallb_app in LI. apply andb_true_iff in LI as [A B].
     clear - A B. induction binds as [|nt bl IH]; [constructor|]. cbn [map forallb] in A, B.
     apply andb_true_iff in A as [A1 A2]. apply andb_true_iff in B as [B1 B2]. constructor; [split; assumption|now apply IH].
-  - (* final *) eexists. destruct dc as [[c1 c2]|]; [|discriminate KR].
-    apply d_final; [now apply nonempty_ne|now apply forallb_idents|assumption].
+  - (* final *) eexists. apply d_final; [now apply nonempty_ne|now apply forallb_idents|assumption].
   - eexists. apply d_modproc_ref; [now apply nonempty_ne|now apply forallb_idents|]. cbn [cx_kind]. now destruct k.
   - eexists. apply d_decl; try assumption; [now apply nonempty_ne|now apply forallb_idents].
   - eexists. now apply d_enumerator.
@@ -2267,48 +2369,32 @@ Proof.
   - (* executable statements *) apply d_exec. now apply Nat.ltb_lt.
 Qed.
 
-(* ------------------------------------------------------------------ what is refuted *)
-(* the dispatch statement without the restriction to the spellings FORD handles *)
-Definition dispatch_statement_all_spellings : Prop :=
-  forall k inc l0 l, line_shape_ok l = true -> place_ok k inc l0 l = true ->
-  exists key, classify (mkctx k inc l0) (render l) = Fired key (stmt_of l).
-
+(* ------------------------------------------------------------------ what was refuted, and is repaired *)
+(* the lines on which the chain went wrong before the repairs: FINAL without "::", END BLOCKDATA
+   without a blank, an END statement with a statement label, an assignment to a variable named
+   "interface"; they are ordinary cases of dispatch_correct now *)
 Definition w_final : sline := XFinal [] None 0 0 [s "f1"].
 Definition w_end_blockdata : sline := XEndUnit None [] [] 1 0 EBlockData (Some (0, s "bd")).
 Definition w_labelled_end : sline := XEndUnit (Some (s "99", 0)) [] [] 1 1 ESubroutine (Some (0, s "sub")).
 
-Lemma witness_final :
-  render w_final = s "final f1" /\ line_shape_ok w_final = true /\ place_ok KType true true w_final = true /\
-  classify (mkctx KType true true) (render w_final) = Fired (s "tail") SNoop.
+Example final_fixed :
+  render w_final = s "final f1" /\ line_ok w_final = true /\ place_ok KType true true w_final = true /\
+  classify (mkctx KType true true) (render w_final) = Fired (s "FINAL_RE") (SLeaf LFinal [s "f1"]).
 Proof. repeat split; vm_compute; reflexivity. Qed.
-Lemma witness_end_blockdata :
-  render w_end_blockdata = s "end blockdata bd" /\ line_shape_ok w_end_blockdata = true /\
-  classify (mkctx KBlockData false true) (render w_end_blockdata) = Fired (s "tail") SNoop.
+Example end_blockdata_fixed :
+  render w_end_blockdata = s "end blockdata bd" /\ line_ok w_end_blockdata = true /\
+  classify (mkctx KBlockData false true) (render w_end_blockdata) = Fired (s "END_RE") (SEnd EndPlain).
 Proof. repeat split; vm_compute; reflexivity. Qed.
-Lemma witness_labelled_end :
-  render w_labelled_end = s "99 end subroutine sub" /\ line_shape_ok w_labelled_end = true /\
-  classify (mkctx KSubroutine false true) (render w_labelled_end) = Fired (s "SUBROUTINE_RE") (SUnit KSubroutine (s "sub")).
+Example labelled_end_fixed :
+  render w_labelled_end = s "99 end subroutine sub" /\ line_ok w_labelled_end = true /\
+  classify (mkctx KSubroutine false true) (render w_labelled_end) = Fired (s "END_RE") (SEnd EndPlain).
 Proof. repeat split; vm_compute; reflexivity. Qed.
-
-Theorem dispatch_refuted_all_spellings : ~ dispatch_statement_all_spellings.
-Proof.
-  intros H. destruct witness_final as (_ & LS & PO & C). destruct (H KType true true w_final LS PO) as (key & E).
-  rewrite C in E. discriminate E.
-Qed.
-
-(* an assignment to a variable is never taken for the first line of an entity *)
-Definition assignment_statement_noise : Prop :=
-  forall c x e, ident_ok x = true -> ident_ok e = true ->
-  exists key, classify c (x ++ s " = " ++ e) = Fired key SNoop.
-Lemma witness_interface_assignment :
-  classify (mkctx KSubroutine false true) (s "interface" ++ s " = " ++ s "n")
-  = Fired (s "INTERFACE_RE") (SIface false (s "= n")).
+Example interface_assignment_fixed :
+  classify (mkctx KSubroutine false true) (s "interface" ++ s " = " ++ s "n") = Fired (s "tail") SNoop.
 Proof. vm_compute. reflexivity. Qed.
-Theorem assignment_refuted_interface : ~ assignment_statement_noise.
-Proof.
-  intros H. destruct (H (mkctx KSubroutine false true) (s "interface") (s "n") eq_refl eq_refl) as (key & E).
-  rewrite witness_interface_assignment in E. discriminate E.
-Qed.
+Example program_inside_unit_fixed :
+  classify (mkctx KModule false true) (s "program p") = Fired (s "PROGRAM_RE") (SUnit KProgram (s "p")).
+Proof. vm_compute. reflexivity. Qed.
 
 (* non-vacuity of the dispatch theorem: a line of every kind with unusual spellings *)
 Example dispatch_examples :
@@ -2320,5 +2406,7 @@ Example dispatch_examples :
      (KType, true, true, XBound [] [true] 1 0 1 1 1 [(s "draw", s "draw_impl"); (s "scale", s "scale_impl")]);
      (KSubroutine, false, true, XDecl (mkts [true] [] 1 1 1 1 0 0) (ANum BReal (Some (s "dp"))) (Some 0) 1 [s "a"; s "b"]);
      (KSubroutine, false, true, XEndUnit None [true; true; true] [] 0 1 ESubroutine (Some (1, s "solve")));
-     (KProgram, false, false, XBlock (Some (s "outer", 0, 1)) [true])] = true.
+     (KProgram, false, false, XBlock (Some (s "outer", 0, 1)) [true]);
+     (KType, true, true, w_final); (KBlockData, false, true, w_end_blockdata); (KSubroutine, false, true, w_labelled_end);
+     (KModule, false, true, XProgram [] (Some (0, s "p")))] = true.
 Proof. vm_compute. reflexivity. Qed.
